@@ -1,7 +1,10 @@
-(* C20 — property theorems only.  Proofs: C20/Proofs.v (locking and isolation model), C20/SitesOk.v (hypotheses
-   decided on the site inventory regenerated from the source by translators/syncsites2coq.py on every run). *)
+(* C20 — property theorems only.  Proofs: C20/Proofs.v (locking and isolation model, read-only programs), C20/SitesOk.v
+   (hypotheses decided on the site inventory regenerated from the source by translators/syncsites2coq.py on every run),
+   C20/InvProofs.v (the machine with write acquisitions and shared mutable cells: theorems for EVERY inventory that meets
+   `sites_ok`, and a necessity witness per hypothesis), C20/CodeProofs.v (the current inventory as an instance: the lock program
+   of an evaluation call built from the regenerated code regions, every nesting depth). *)
 From Coq Require Import List NArith Bool Arith.
-From DV Require Import C20.Conc C20.Proofs C20.Sites Gen.SyncSites C20.SitesOk.
+From DV Require Import C20.Conc C20.Proofs C20.Sites Gen.SyncSites C20.SitesOk C20.Inv C20.InvProofs C20.Code C20.CodeProofs.
 Import ListNotations.
 
 (* nested read acquisitions never block when no write acquisition exists: every unfinished thread can take its next step
@@ -64,8 +67,8 @@ Theorem C20_stuck_forever : forall (Sg Pv : Type) (sched : list tid) (s : state 
 Proof. intros Sg Pv. exact (@stuck_forever Sg Pv). Qed.
 
 (* the hypotheses about the code, decided on the inventory of the current working tree *)
-Theorem C20_sites_ok : forallb eval_site_ok sites = true.
-Proof. exact sites_ok. Qed.
+Theorem C20_sites_ok : sites_ok sites = true.     (* sites_ok inv := forallb eval_site_ok inv *)
+Proof. exact code_sites_ok. Qed.
 
 Example C20_sites_nonvacuous :
   Nat.leb 9 (count_kind is_eval_read sites) = true /\ Nat.leb 9 (count_kind is_build_write sites) = true /\
@@ -81,20 +84,174 @@ Example C20_find_stuck_finds :
   (exists sched, find_stuck2 [(false, 6); (false, 5); (false, 6)] [(true, 6)] = Some sched).
 Proof. exact find_stuck_finds. Qed.
 
-(* the theorems for the program the inventory describes: any number of concurrent calls, any schedule *)
-Theorem C20_code_no_deadlock : forall (Sg Pv : Type) (sg : Sg) (fps : list ((Sg -> Pv -> Pv) * Pv)) (sched : list tid),
-  ~ stuck (run sched (init sg (callers fps))).
+(* ======================= theorems that quantify over the inventory =======================
+   Machine of C20/Inv.v: writer-preferring readers-writer locks, read AND write acquisitions, an immutable deployed model,
+   private states, and shared mutable cells that a step names.  `all_from_inv inv ths`: every lock instruction of every thread
+   is an evaluation-phase acquisition listed in inv (or the release of its guard) and every step touches only cells that stand
+   for sites of inv the scanner cannot vouch for.  The current inventory is an instance by C20_sites_ok (the C20_code_ theorems below). *)
+Theorem C20_inv_no_deadlock : forall (Sg Pv : Type) (inv : list site), sites_ok inv = true ->
+  forall (sg : Sg) (m : cells) (ths : list (xthread Sg Pv)), all_from_inv inv ths = true ->
+  forall sched : list tid, ~ xstuck (xrun sched (xinit sg m ths)).
+Proof. intros Sg Pv. exact (@inv_no_deadlock Sg Pv). Qed.
+
+Theorem C20_inv_no_block : forall (Sg Pv : Type) (inv : list site), sites_ok inv = true ->
+  forall (sg : Sg) (m : cells) (ths : list (xthread Sg Pv)), all_from_inv inv ths = true ->
+  forall (sched : list tid) (t : tid), xfinishedb t (xrun sched (xinit sg m ths)) = false ->
+  exists s', xstep t (xrun sched (xinit sg m ths)) = Some s' /\
+             xremaining t s' = tl (xremaining t (xrun sched (xinit sg m ths))).
+Proof. intros Sg Pv. exact (@inv_no_block Sg Pv). Qed.
+
+(* fair = every thread gets at least as many turns as its program is long *)
+Theorem C20_inv_all_finish : forall (Sg Pv : Type) (inv : list site), sites_ok inv = true ->
+  forall (sg : Sg) (m : cells) (ths : list (xthread Sg Pv)), all_from_inv inv ths = true ->
+  forall sched : list tid, xfair ths sched -> forall t, xfinishedb t (xrun sched (xinit sg m ths)) = true.
+Proof. intros Sg Pv. exact (@inv_all_finish Sg Pv). Qed.
+
+(* xalone = a system whose only thread is that call *)
+Theorem C20_inv_result_is_solo_result : forall (Sg Pv : Type) (inv : list site), sites_ok inv = true ->
+  forall (sg : Sg) (m : cells) (ths : list (xthread Sg Pv)), all_from_inv inv ths = true ->
+  forall (sched : list tid) (t : tid), xfinishedb t (xrun sched (xinit sg m ths)) = true ->
+  xresult t (xrun sched (xinit sg m ths)) = xalone sg m ths t.
+Proof. intros Sg Pv. exact (@inv_result_is_solo_result Sg Pv). Qed.
+
+Theorem C20_inv_no_lock_left_held : forall (Sg Pv : Type) (inv : list site), sites_ok inv = true ->
+  forall (sg : Sg) (m : cells) (ths : list (xthread Sg Pv)), all_from_inv inv ths = true ->
+  forall sched : list tid, xall_well_bracketed ths = true ->
+  (forall t, xfinishedb t (xrun sched (xinit sg m ths)) = true) -> xall_free (xrun sched (xinit sg m ths)).
+Proof. intros Sg Pv. exact (@inv_no_lock_left_held Sg Pv). Qed.
+
+Theorem C20_inv_shared_state_untouched : forall (Sg Pv : Type) (inv : list site), sites_ok inv = true ->
+  forall (sg : Sg) (m : cells) (ths : list (xthread Sg Pv)), all_from_inv inv ths = true ->
+  forall sched : list tid, xsigma (xrun sched (xinit sg m ths)) = sg /\ xmem (xrun sched (xinit sg m ths)) = m.
+Proof. intros Sg Pv. exact (@inv_shared_state_untouched Sg Pv). Qed.
+
+(* no call observes another call's inputs or intermediate results: the other threads (how many, their programs, their private
+   states), the contents of the shared cells and the two schedules are arbitrary *)
+Theorem C20_inv_non_interference : forall (Sg Pv : Type) (inv : list site) (sg : Sg) (m1 m2 : cells)
+  (ths1 ths2 : list (xthread Sg Pv)) (sched1 sched2 : list tid) (t1 t2 : tid),
+  sites_ok inv = true -> all_from_inv inv ths1 = true -> all_from_inv inv ths2 = true ->
+  nth_error ths1 t1 = nth_error ths2 t2 ->
+  xfinishedb t1 (xrun sched1 (xinit sg m1 ths1)) = true ->
+  xfinishedb t2 (xrun sched2 (xinit sg m2 ths2)) = true ->
+  xresult t1 (xrun sched1 (xinit sg m1 ths1)) = xresult t2 (xrun sched2 (xinit sg m2 ths2)).
+Proof. intros Sg Pv. exact (@inv_non_interference Sg Pv). Qed.
+
+(* ----------------------- every hypothesis is necessary ----------------------- *)
+(* "no write acquisition in the evaluation phase": for EVERY receiver l the inventory {read section of l, write acquisition of l,
+   both in the evaluation phase} allows a bracketed program - the write acquisition nested in the read section of the same lock -
+   with which one call alone is stuck after two turns and under every continuation of the schedule *)
+Theorem C20_no_eval_write_necessary : forall l,
+  sites_ok (inv_eval_write l) = false /\
+  forallb (fun s => is_lock_site s) (inv_eval_write l) = true /\
+  prog_from_inv (inv_eval_write l) (upgrade_x l) = true /\ xwell_bracketed (upgrade_x l) = true /\
+  forall sched, xstuck (xrun ([0; 0] ++ sched) (xinit tt [] [ {| xprog := upgrade_x l; xpriv := 0 |} ])).
+Proof. exact no_eval_write_necessary. Qed.
+
+(* the lock is writer-preferring: the write acquisition need not sit in the caller's own read section.  A call that re-enters a
+   read section (as the nested decision evaluation does) and another call that takes the write lock once are stuck after [0; 1; 0] *)
+Theorem C20_waiting_writer_blocks_nested_reader :
+  prog_from_inv (inv_eval_write 6) (nested_reader_x 6) = true /\ prog_from_inv (inv_eval_write 6) (a_writer_x 6) = true /\
+  xwell_bracketed (nested_reader_x 6) = true /\ xwell_bracketed (a_writer_x 6) = true /\
+  forall sched, xstuck (xrun ([0; 1; 0] ++ sched)
+     (xinit tt [] [ {| xprog := nested_reader_x 6; xpriv := 0 |}; {| xprog := a_writer_x 6; xpriv := 0 |} ])).
+Proof. exact waiting_writer_blocks_nested_reader. Qed.
+
+(* "no shared mutable state": for EVERY site kind k that is not a lock acquisition and that the predicate rejects, the inventory
+   holding just that site allows two lock-free calls (each takes a number from the shared cell) for which call 0 returns 1 under
+   the schedule [1; 0] and 0 when made alone *)
+Theorem C20_no_shared_mutable_necessary : forall k,
+  is_lock_site (mk_site k true) = false -> eval_site_ok (mk_site k true) = false ->
+  sites_ok (inv_one k) = false /\ mut_cells (inv_one k) = [0] /\
+  all_from_inv (inv_one k) [ticket_call [0]; ticket_call [0]] = true /\
+  xall_well_bracketed [ticket_call [0]; ticket_call [0]] = true /\
+  (forall t, xfinishedb t (xrun [1; 0] (xinit tt [0] [ticket_call [0]; ticket_call [0]])) = true) /\
+  xresult 0 (xrun [1; 0] (xinit tt [0] [ticket_call [0]; ticket_call [0]])) = Some 1 /\
+  xalone tt [0] [ticket_call [0]; ticket_call [0]] 0 = Some 0.
+Proof. exact no_shared_mutable_necessary. Qed.
+
+Theorem C20_rejected_site_kinds :
+  forall k, is_lock_site (mk_site k true) = false -> eval_site_ok (mk_site k true) = false ->
+  k = SStatic true \/ k = SStaticMut \/ k = SThreadLocal \/ k = SUnsafeSendSync \/ k = SCtxUse false \/ k = SFfiCtx false \/
+  k = SField true \/ k = SMissingFile.
+Proof. exact rejected_site_kinds. Qed.
+
+(* "every guard is released": a read-only call that keeps a guard leaves the lock held *)
+Theorem C20_bracketing_necessary :
+  let inv := [mk_site (SLock false 6) true] in
+  let p : list (xinstr unit nat) := [XAcq false 6; XStep [] (fun _ _ n => ([], S n))] in
+  sites_ok inv = true /\ prog_from_inv inv p = true /\ xwell_bracketed p = false /\
+  (forall t, xfinishedb t (xrun [0; 0] (xinit tt [] [ {| xprog := p; xpriv := 0 |} ])) = true) /\
+  lget 6 (xlocks (xrun [0; 0] (xinit tt [] [ {| xprog := p; xpriv := 0 |} ]))) <> free_lock.
+Proof. exact bracketing_necessary. Qed.
+
+(* ----------------------- the current inventory as an instance -----------------------
+   code_prog n fs (C20/Code.v): the lock program of ONE evaluation call, built from the code regions regenerated into
+   Gen/SyncSites.v - evaluate_invocable [ evaluate_decision [ decision closure [ ... n levels ... ] ] ], acquisitions and releases
+   with the nesting the brace structure of the source gives; fs k = the decision logic of level k (arbitrary); its steps may touch
+   exactly the shared mutable cells of the current inventory.  calls = any number of (depth, logic, private state). *)
+Theorem C20_regions_ok : regions_ok = true.
+Proof. exact code_regions_ok. Qed.
+
+(* fails for an empty or wrong inventory: the regenerated call path of a decision requiring a decision has at least 12 acquisitions
+   on at least 6 receivers, each an evaluation-phase READ site of the inventory, runs the decision logic twice, and is what two
+   nested levels of the regenerated regions acquire (props/c20.py compares it with the acquisitions observed in the running code) *)
+Theorem C20_inventory_nonempty :
+  Nat.leb 12 (length call_path) = true /\
+  Nat.leb 6 (length (distinct_locks call_path)) = true /\
+  forallb (fun x => negb (fst x) && site_mem x (eval_lock_sites sites)) call_path = true /\
+  count_steps (deep_ops 2) = 2 /\
+  acqs_of (deep_ops 2) = call_path.
+Proof. exact inventory_nonempty. Qed.
+
+Theorem C20_code_prog_from_inventory : forall (Sg Pv : Type) (n : nat) (fs : nat -> stepfn Sg Pv),
+  prog_from_inv sites (code_prog n fs) = true /\ xwell_bracketed (code_prog n fs) = true.
+Proof. intros Sg Pv n fs. split; [exact (@code_prog_from_inventory Sg Pv n fs) | exact (@code_prog_well_bracketed Sg Pv n fs)]. Qed.
+
+(* the instance cannot be had from an empty inventory, nor from the current one with its evaluation-phase read sites removed *)
+Theorem C20_empty_inventory_rejected : forall (Sg Pv : Type) (n : nat) (fs : nat -> stepfn Sg Pv),
+  prog_from_inv [] (code_prog n fs) = false.
+Proof. intros Sg Pv. exact (@empty_inventory_rejected Sg Pv). Qed.
+
+Theorem C20_inventory_without_eval_reads_rejected : forall (n : nat) (fs : nat -> stepfn unit nat),
+  prog_from_inv (filter (fun s => negb (is_eval_read s)) sites) (code_prog n fs) = false.
+Proof. exact inventory_without_eval_reads_rejected. Qed.
+
+Theorem C20_code_no_deadlock : forall (Sg Pv : Type) (sg : Sg) (m : cells) (calls : list (@call Sg Pv)) (sched : list tid),
+  ~ xstuck (xrun sched (xinit sg m (code_threads calls))).
 Proof. intros Sg Pv. exact (@code_no_deadlock Sg Pv). Qed.
 
-Theorem C20_code_isolation : forall (Sg Pv : Type) (sg : Sg) (fps : list ((Sg -> Pv -> Pv) * Pv)) (sched : list tid) (t : tid),
-  finishedb t (run sched (init sg (callers fps))) = true ->
-  result t (run sched (init sg (callers fps))) = result t (solo t (init sg (callers fps))).
-Proof. intros Sg Pv. exact (@code_isolation Sg Pv). Qed.
+Theorem C20_code_result_is_solo_result : forall (Sg Pv : Type) (sg : Sg) (m : cells) (calls : list (@call Sg Pv)) (sched : list tid) (t : tid),
+  xfinishedb t (xrun sched (xinit sg m (code_threads calls))) = true ->
+  xresult t (xrun sched (xinit sg m (code_threads calls))) = xalone sg m (code_threads calls) t.
+Proof. intros Sg Pv. exact (@code_result_is_solo_result Sg Pv). Qed.
 
-Theorem C20_code_locks_free : forall (Sg Pv : Type) (sg : Sg) (fps : list ((Sg -> Pv -> Pv) * Pv)) (sched : list tid),
-  (forall t, finishedb t (run sched (init sg (callers fps))) = true) ->
-  all_free (run sched (init sg (callers fps))).
-Proof. intros Sg Pv. exact (@code_locks_free Sg Pv). Qed.
+Theorem C20_code_no_lock_left_held : forall (Sg Pv : Type) (sg : Sg) (m : cells) (calls : list (@call Sg Pv)) (sched : list tid),
+  (forall t, xfinishedb t (xrun sched (xinit sg m (code_threads calls))) = true) ->
+  xall_free (xrun sched (xinit sg m (code_threads calls))).
+Proof. intros Sg Pv. exact (@code_no_lock_left_held Sg Pv). Qed.
+
+(* under every fair schedule every call returns with the value of that call made alone, all locks are free again, and the
+   deployed model and the shared cells are what they were *)
+Theorem C20_code_fair_schedule_completes : forall (Sg Pv : Type) (sg : Sg) (m : cells) (calls : list (@call Sg Pv)) (sched : list tid),
+  xfair (code_threads calls) sched ->
+  (forall t, xfinishedb t (xrun sched (xinit sg m (code_threads calls))) = true /\
+             xresult t (xrun sched (xinit sg m (code_threads calls))) = xalone sg m (code_threads calls) t) /\
+  xall_free (xrun sched (xinit sg m (code_threads calls))) /\
+  xsigma (xrun sched (xinit sg m (code_threads calls))) = sg /\ xmem (xrun sched (xinit sg m (code_threads calls))) = m.
+Proof. intros Sg Pv. exact (@code_fair_schedule_completes Sg Pv). Qed.
+
+(* non-vacuity: three concurrent calls of depths 1, 2 and 3 whose decision logic of level k adds k + 1; the schedule interleaves
+   them turn by turn; each returns what it returns alone, the locks are free *)
+Example C20_code_nonvacuous :
+  let fs : nat -> stepfn unit nat := fun k _ _ p => ([], p + k + 1) in
+  let calls : list (@call unit nat) := [(1, fs, 100); (2, fs, 200); (3, fs, 300)] in
+  let sched := flat_map (fun _ => [0; 1; 2]) (seq 0 40) in
+  map (fun t => xresult t (xrun sched (xinit tt [] (code_threads calls)))) [0; 1; 2] = [Some 101; Some 203; Some 306] /\
+  map (fun t => xalone tt [] (code_threads calls) t) [0; 1; 2] = [Some 101; Some 203; Some 306] /\
+  forallb (fun t => xfinishedb t (xrun sched (xinit tt [] (code_threads calls)))) [0; 1; 2] = true /\
+  map (fun l => lget l (xlocks (xrun sched (xinit tt [] (code_threads calls))))) [0; 2; 5; 6; 7; 8] = repeat free_lock 6 /\
+  map (fun c => List.length (xprog (code_thread c))) calls = [15; 26; 37].
+Proof. vm_compute. repeat split; reflexivity. Qed.
 
 Print Assumptions C20_no_block.
 Print Assumptions C20_no_deadlock.
@@ -108,6 +265,25 @@ Print Assumptions C20_sites_ok.
 Print Assumptions C20_sites_nonvacuous.
 Print Assumptions C20_call_path_ok.
 Print Assumptions C20_find_stuck_finds.
+Print Assumptions C20_inv_no_deadlock.
+Print Assumptions C20_inv_no_block.
+Print Assumptions C20_inv_all_finish.
+Print Assumptions C20_inv_result_is_solo_result.
+Print Assumptions C20_inv_no_lock_left_held.
+Print Assumptions C20_inv_shared_state_untouched.
+Print Assumptions C20_inv_non_interference.
+Print Assumptions C20_no_eval_write_necessary.
+Print Assumptions C20_waiting_writer_blocks_nested_reader.
+Print Assumptions C20_no_shared_mutable_necessary.
+Print Assumptions C20_rejected_site_kinds.
+Print Assumptions C20_bracketing_necessary.
+Print Assumptions C20_regions_ok.
+Print Assumptions C20_inventory_nonempty.
+Print Assumptions C20_code_prog_from_inventory.
+Print Assumptions C20_empty_inventory_rejected.
+Print Assumptions C20_inventory_without_eval_reads_rejected.
 Print Assumptions C20_code_no_deadlock.
-Print Assumptions C20_code_isolation.
-Print Assumptions C20_code_locks_free.
+Print Assumptions C20_code_result_is_solo_result.
+Print Assumptions C20_code_no_lock_left_held.
+Print Assumptions C20_code_fair_schedule_completes.
+Print Assumptions C20_code_nonvacuous.
